@@ -61,11 +61,20 @@ def _set_ops(F, f, depth=0):
     return ops
 
 
+def _subset_type(F):
+    """the resolver's Subset enum: narrow::Subset, or narrow::<private submodule>::Subset"""
+    c = [p for p in F.adts if p.startswith(NARROW) and p.endswith("::Subset")]
+    if len(c) != 1:
+        raise BrokenCheck("expected one Subset type under %s, found %r" % (NARROW, c))
+    return c[0]
+
+
 def subset_roles(F):
     """role of each Subset-typed field of SearchSpace, decided by how it is written: assigned from a function that intersects
     sets -> 'meet' (holds what satisfies *every* constraint), from one that unites -> 'join' (what satisfies *some*)"""
     roles = {}
-    fields = [fd["name"] for fd in F.adt(SS)["variants"][0]["fields"] if fd["ty"].endswith("narrow::Subset")]
+    # (the Subset type may live in narrow.rs or in a private submodule of it)
+    fields = [fd["name"] for fd in F.adt(SS)["variants"][0]["fields"] if fd["ty"] == _subset_type(F)]
     for p, f in F.fns.items():
         if not p.startswith(NARROW) or f.get("derived"):
             continue
@@ -89,7 +98,11 @@ def subset_roles(F):
 
 
 def f_candidates(F, res):
-    f = F.fn(NARROW + "SearchSpace::take")
+    # take() with the helper methods it may have been split into (`take_at_most`, `top_up`, ..) inlined
+    def _want(t, callee):
+        return callee["crate"] == "tx3_resolver" and not callee.get("impl_trait") and not callee.get("trait_default") and len(callee["blocks"]) <= 150
+    _KEEP.append(_want)
+    f = mir.inline_calls(F, F.fn(NARROW + "SearchSpace::take"), want=_want, depth=3)
     w = where(f)
     key = f["path"] + "|bounded take draws from the intersection only"
     fields, roles = subset_roles(F)
@@ -552,7 +565,7 @@ def s_lattice(F, res):
     is followed through the `match` (finite case analysis on the discriminants) and the result compared with the lattice:
         union:        NotSet is neutral, All absorbs,   Specific x Specific -> set union
         intersection: NotSet is neutral, All is neutral, Specific x Specific -> set intersection"""
-    SUB = NARROW + "Subset"
+    SUB = _subset_type(F)
     adt = F.adts.get(SUB)
     if adt is None:
         raise BrokenCheck("narrow::Subset not found")
